@@ -28,7 +28,7 @@ PROFILES = ["debug"]
 def streams(tier, seed):
     if tier == "quick":
         # z3 seed 4 = smt.core.minimize, cvc5 seed 2 = --minimal-unsat-cores: small cores make the init re-fixing matter
-        return [dict(tag="main", count=40, seed=seed, extra={"runs": "z3:0,4;cvc5:2;pushpop:0", "jobs": 8, "full-bits": 4, "cvc5-bits": 4, "small-share": 75})]
+        return [dict(tag="main", count=40, seed=seed, extra={"runs": "z3:0,4;cvc5:0,2;pushpop:0", "jobs": 8, "full-bits": 4, "cvc5-bits": 4, "small-share": 75})]
     out = []
     for k in range(3):
         out.append(dict(tag="main%d" % k, count=40, seed=seed * 1000 + k,
